@@ -84,7 +84,41 @@ def walk(b, start, case, stop, outcomes_re, N, limit=4000):
         while t0[0] in ("ref", "deref"):
             t0 = t0[1]
         cl = classify(t0, N["new"], N["old"], b)
-        if cl is None or cl[0] not in case:
+        if cl is None:
+            # lexicographic comparison of tuples: `(new.mdate, &new.signature) <= (old.mdate, &old.signature)`
+            op_ = a_ = b_ = None
+            if t0[0] == "bin" and t0[1] in BIN:
+                op_, a_, b_ = BIN[t0[1]], t0[2], t0[3]
+            elif t0[0] == "call" and CMP_CALL.search(t0[1]) and len(t0[2]) == 2:
+                op_, a_, b_ = CMP_CALL.search(t0[1]).group(1), t0[2][0], t0[2][1]
+            if op_ is not None:
+                def tup(z):
+                    z = strip_refs(z)
+                    for _ in range(4):
+                        while z[0] in ("ref", "deref"):
+                            z = strip_refs(z[1])
+                        if z[0] == "var" and len(z) > 2:
+                            ds_ = b.var_defs(z)
+                            if len(ds_) == 1:
+                                z = strip_refs(ds_[0])
+                                continue
+                        break
+                    return z if z[0] == "aggr" and z[1] == "tuple" else None
+                ta_, tb_ = tup(a_), tup(b_)
+                if ta_ is not None and tb_ is not None and len(ta_[4]) == len(tb_[4]) and ta_[4]:
+                    order = 0
+                    for ca, cb in zip(ta_[4], tb_[4]):
+                        c1 = classify(("bin", "Lt", strip_refs(ca), strip_refs(cb)), N["new"], N["old"], b)
+                        if c1 is None or c1[0] not in case:
+                            return None
+                        o1 = -case[c1[0]] if c1[2] else case[c1[0]]
+                        if o1 != 0:
+                            order = o1
+                            break
+                    v = truth_of(op_, order)
+                    return (not v) if neg else v
+            return None
+        if cl[0] not in case:
             return None
         f, op, swapped = cl
         v = truth_of(op, -case[f] if swapped else case[f])
